@@ -369,7 +369,15 @@ fn finish2<L: HLang>(kind1: &str, text1: &str, kind2: &str, text2: &str, mut tag
     let line = format!("parse2 {};{};{};{};{}", enc_sig(&L::sig()), kind1, enc_cps(text1), kind2, enc_cps(text2));
     let (k1, t1, k2, t2) = (kind1.to_string(), text1.to_string(), kind2.to_string(), text2.to_string());
     let r = in_fresh_thread(move || {
-        let first = run_text::<L>(&k1, &t1);
+        // `kind*N`: the first text is parsed N times (a thread that has rejected many inputs must still accept a good one)
+        let (k1b, reps) = match k1.split_once('*') {
+            Some((k, n)) => (k.to_string(), n.parse::<usize>().unwrap_or(1)),
+            None => (k1.clone(), 1),
+        };
+        let mut first = run_text::<L>(&k1b, &t1);
+        for _ in 1..reps {
+            first = run_text::<L>(&k1b, &t1);
+        }
         let second = run_text::<L>(&k2, &t2);
         (first.0, second)
     });
@@ -415,9 +423,23 @@ fn pair_case<L: HLang>(rng: &mut Rng) -> Case {
             };
             (kind.to_string(), t)
         };
-        let (k1, t1) = gen(&mut r, true);
+        let (mut k1, mut t1) = gen(&mut r, true);
         let second_broken = r.chance(1, 3);
         let (k2, t2) = gen(&mut r, second_broken);
+        if r.chance(1, 8) {
+            // a long run of rejected inputs, each cut off inside several open parentheses, before the second text
+            let deep = gen_pat::<L>(&mut r, 4, true, false, false).to_string();
+            let opens: Vec<usize> = deep.char_indices().filter(|(_, c)| *c == '(').map(|(i, _)| i).collect();
+            if opens.len() >= 2 {
+                let cut = opens[opens.len() - 1] + 1;
+                let mut end = cut;
+                while end < deep.len() && !deep.is_char_boundary(end) {
+                    end += 1;
+                }
+                t1 = deep[..end].to_string();
+                k1 = format!("pat*{}", 150 + r.below(200));
+            }
+        }
         (k1, t1, k2, t2)
     })
     .unwrap();
